@@ -12,6 +12,7 @@ import QbeeModel.Model.FloatInst
 import QbeeModel.Model.ExprSem
 import QbeeModel.Model.Fold
 import QbeeModel.Model.Asm
+import QbeeModel.Model.DebugMap
 /-
   Line-protocol driver for the executable models.  One request per line, one
   answer per line.  Unknown or malformed requests answer `bad-op`; the models
@@ -448,6 +449,31 @@ def handleAsm (r : List String) : String :=
     let erased := match Asm.assemble (Asm.erase s) with | some bs => toHex bs | none => "keyerror"
     code ++ " " ++ erased ++ " | " ++ " ".intercalate ((Asm.markerOffsets s 0).map fun (k, o) => s!"{k}:{o}")
 
+partial def parseEvs2 : List String → Option (List DebugMap.Ev)
+  | [] => some []
+  | "S" :: i :: o :: r => do let i ← i.toNat?; let o ← o.toNat?; let rest ← parseEvs2 r; pure (.start i o :: rest)
+  | "E" :: i :: o :: r => do let i ← i.toNat?; let o ← o.toNat?; let rest ← parseEvs2 r; pure (.stop i o :: rest)
+  | _ => none
+
+partial def parseRecs : List String → Option (List DebugMap.Rec)
+  | [] => some []
+  | i :: s :: e :: r => do let i ← i.toNat?; let s ← s.toNat?; let e ← e.toNat?; let rest ← parseRecs r; pure (⟨i, s, e⟩ :: rest)
+  | _ => none
+
+def handleDbgMap : List String → Option String
+  | "collect" :: r => do
+      let evs ← parseEvs2 r
+      pure (match DebugMap.collect evs [] [] with
+        | some rs => "ok " ++ " ".intercalate (rs.map fun x => s!"{x.id}:{x.s}:{x.e}")
+        | none => "assert")
+  | "find" :: n :: r => do
+      let n ← n.toNat?
+      -- addresses first (n of them), then the records
+      let addrs ← (r.take n).mapM String.toNat?
+      let recs ← parseRecs (r.drop n)
+      pure (" ".intercalate (addrs.map fun a => match DebugMap.findStmt recs a with | some x => toString x.id | none => "-"))
+  | _ => none
+
 def handle (toks : List String) : String :=
   match toks with
   | "print" :: r =>
@@ -538,6 +564,7 @@ def handle (toks : List String) : String :=
   | "refeval" :: r => handleRefEval r
   | "fold" :: r => (handleFold r).getD "bad-op"
   | "asm" :: r => handleAsm r
+  | "dbgmap" :: r => (handleDbgMap r).getD "bad-op"
   | ["uscan", f] =>
     match decStr f with
     | some f => match Using.scanFmt f with
